@@ -224,6 +224,14 @@ def family_e3(thorough: bool = False):
         rows2 = [tr] * 5
         rows2.insert(pos, orow)
         yield "options-late", jwire.write_delimited([jwire.enc_frame(rows2)])
+    # a later options row that declares other (huge) sizes than the first one
+    for field in ("max_name_table_size", "max_prefix_table_size", "max_datatype_table_size"):
+        for v in (8_000_000, 2**31 - 1):
+            o_big = jwire.mkrow("options", {**opts, field: v})
+            yield "options-redeclared", jwire.write_delimited([jwire.enc_frame([orow, tr, o_big, tr])])
+            yield "options-redeclared", jwire.write_delimited(
+                [jwire.enc_frame([orow, tr]), jwire.enc_frame([o_big, tr])])
+            yield "options-redeclared", jwire.enc_frame([orow, tr, o_big, tr])
     many = jwire.enc_frame([orow] + [tr] * 3)
     yield "many-frames", jwire.write_delimited([many] * 2000)
     # long, almost well-formed strings in every string-valued field (pattern matching on them
@@ -243,6 +251,53 @@ def family_e3(thorough: bool = False):
                     jwire.mkrow("triple", {"s": ("iri", 1, 1), "p": ("iri", 1, 1),
                                            "o": ("literal", sbad, None, 1)})]
             yield "hostile-strings", jwire.write_delimited([jwire.enc_frame(rows)])
+
+
+def family_e5():
+    """Typed literals whose *value* is astronomically larger than their lexical form: turning
+    the value back into text must not cost memory in proportion to the number written down."""
+    xsd = "http://www.w3.org/2001/XMLSchema#"
+    opts = {"physical_type": 1, "max_name_table_size": 8, "max_datatype_table_size": 4,
+            "version": 1}
+
+    def stream(lex: str, dt: str) -> bytes:
+        rows = [jwire.mkrow("options", opts), jwire.mkrow("datatype", {"id": 1, "value": xsd + dt}),
+                jwire.mkrow("triple", {"s": ("bnode", "a"), "p": ("bnode", "b"),
+                                       "o": ("literal", lex, None, 1)})]
+        return jwire.write_delimited([jwire.enc_frame(rows)])
+
+    for lex in ("1E30000000", "1E-30000000", "-2.5e+30000000"):
+        yield "decimal-exponent", stream(lex, "decimal")
+    for dt in ("double", "float", "integer", "long", "nonNegativeInteger", "duration", "dateTime",
+               "gYear", "hexBinary", "boolean"):
+        for lex in ("1E30000000", "1E-30000000", "P30000000000Y", "30000000000-01-01T00:00:00",
+                    "9" * 4000):
+            yield "value-expansion", stream(lex, dt)
+
+
+def isolated(data: bytes, thorough: bool):
+    """run_one in a child process of its own: peak RSS is per process and never goes down, so a
+    case that is expected to balloon must not hide what later cases do."""
+    import json  # noqa: PLC0415
+
+    r, w = os.pipe()
+    pid = os.fork()
+    if pid == 0:
+        try:
+            os.close(r)
+            kind, detail, outcomes = run_one(data, thorough)
+            os.write(w, json.dumps([kind, detail, outcomes]).encode())
+        finally:
+            os._exit(0)
+    os.close(w)
+    buf = b""
+    while chunk := os.read(r, 65536):
+        buf += chunk
+    os.close(r)
+    _, status = os.waitpid(pid, 0)
+    if not buf:
+        return "fatal", f"child process ended without a result (status {status})", {}
+    return tuple(json.loads(buf))
 
 
 def scaling_input(kind: str, k: int) -> bytes:
@@ -268,6 +323,24 @@ def scaling_input(kind: str, k: int) -> bytes:
                 jwire.mkrow("triple", {"s": ("bnode", "a"), "p": ("bnode", "b"),
                                        "o": ("literal", "7" * k, None, 1)})]
         return jwire.write_delimited([jwire.enc_frame(rows)])
+    if kind == "repeated-quoted":
+        # one large quoted triple as subject (balanced nesting, about k triples in it), then k
+        # rows that repeat subject and predicate: work must be rows + size, not rows x size
+        import math  # noqa: PLC0415
+
+        depth = max(1, int(math.log2(max(k, 2))) - 1)
+
+        def quoted(d: int):
+            if d == 0:
+                return ("bnode", "x")
+            q = quoted(d - 1)
+            return ("triple", {"s": q, "p": ("bnode", "p"), "o": q})
+
+        o = jwire.mkrow("options", {**opts, "rdf_star": True, "generalized_statements": True})
+        rows = [o, jwire.mkrow("triple", {"s": quoted(depth), "p": ("bnode", "p"),
+                                          "o": ("literal", "0", None, None)})]
+        rows += [jwire.mkrow("triple", {"o": ("literal", str(i), None, None)}) for i in range(1, k)]
+        return jwire.write_delimited([jwire.enc_frame(rows)])
     if kind == "distinct-statements":
         rows = [orow]
         for i in range(k):
@@ -279,9 +352,33 @@ def scaling_input(kind: str, k: int) -> bytes:
 
 
 SCALING = (("rows-per-frame", 50_000), ("frames", 20_000), ("entries", 50_000),
-           ("distinct-statements", 20_000), ("integer-digits", 200_000), ("decimal-digits", 200_000))
+           ("distinct-statements", 20_000), ("integer-digits", 200_000), ("decimal-digits", 200_000),
+           ("repeated-quoted", 2_000))
 # (size multiplier, ratio above which growth counts as super-linear, items expected per unit)
 SCALING_STEP = {"integer-digits": (16, 24.0), "decimal-digits": (16, 24.0)}
+
+
+def count_items(api: str, reader: str, data: bytes):
+    """Run one parser over `data` and only count what it delivers (no conversion of the items:
+    the harness must not add work of its own to what is being timed)."""
+    try:
+        if api == "generic":
+            from pyjelly.integrations.generic import parse as gp  # noqa: PLC0415
+
+            if reader == "flat":
+                n = sum(1 for _ in gp.parse_jelly_flat(io.BytesIO(data)))
+            else:
+                n = sum(1 for _ in gp.parse_jelly_to_graph(io.BytesIO(data)))
+        else:
+            from pyjelly.integrations.rdflib import parse as rp  # noqa: PLC0415
+
+            if reader == "flat":
+                n = sum(1 for _ in rp.parse_jelly_flat(io.BytesIO(data)))
+            else:
+                n = len(rp.parse_jelly_to_graph(io.BytesIO(data)))
+    except Exception as e:  # noqa: BLE001
+        return [], type(e).__name__
+    return [None] * n, None
 
 
 def scaling_shard(job) -> dict:
@@ -289,27 +386,30 @@ def scaling_shard(job) -> dict:
     below the 16 of a quadratic algorithm."""
     kind, k, thorough = job
     acc = pool.Acc()
-    for api in ("generic", "rdflib"):
+    for api, reader in (("generic", "flat"), ("rdflib", "flat"), ("generic", "to_graph"),
+                        ("rdflib", "to_graph")):
+        if kind == "repeated-quoted" and api == "rdflib":
+            continue  # (quoted triples are not RDF 1.1)
         times = []
         step, limit = SCALING_STEP.get(kind, (4, 9.0))
         single = kind in SCALING_STEP or kind == "entries"  # (one statement whatever the size)
         for mult in (1, step):
             data = scaling_input(kind, k * mult)
             t0 = time.process_time()
-            items, exc = consume_flat(api, io.BytesIO(data))
+            items, exc = count_items(api, reader, data)
             times.append(time.process_time() - t0)
-            if exc is not None or len(items) < (1 if single else k * mult):
+            if exc is not None or len(items) < (1 if single or reader == "to_graph" else k * mult):
                 acc.extra["harness"] = f"scaling input {kind} x{mult} not parsed: {exc} {len(items)}"
         acc.evals += 1
         acc.nontrivial += 1
         t1, t4 = times
         if t4 > 2.0 and t4 > limit * max(t1, 0.02):
             acc.violation({"fail": "super-linear", "family": "e4:" + kind},
-                          f"{api} flat parser: {kind} of size {k} takes {t1:.2f}s CPU, size "
+                          f"{api} {reader} parser: {kind} of size {k} takes {t1:.2f}s CPU, size "
                           f"{step * k} takes {t4:.2f}s (x{t4 / max(t1, 1e-9):.1f}; linear would be "
                           f"x{step})",
                           {"family": "e4:" + kind, "k": k, "data": None, "thorough": thorough})
-        acc.extra.setdefault("scaling", {})[f"{api}:{kind}"] = [round(t1, 3), round(t4, 3)]
+        acc.extra.setdefault("scaling", {})[f"{api}.{reader}:{kind}"] = [round(t1, 3), round(t4, 3)]
     acc.sample({"family": "e4", "kind": kind, "sizes": [k, 4 * k]}, cap=1)
     return acc.out()
 
@@ -336,6 +436,9 @@ def shard(job) -> dict:
             name, seed, values, lo, hi = args
             for d in family_e2(seed, values, lo, hi):
                 yield "e2:" + name, d
+        elif fam == "e5":
+            for label, d in family_e5():
+                yield "e5:" + label, d
         else:
             for label, d in list(family_e3(thorough))[args[0]::args[1]]:
                 yield "e3:" + label, d
@@ -345,7 +448,10 @@ def shard(job) -> dict:
         if progress:
             with open(progress, "wb") as f:
                 f.write(data[:4096])
-        kind, detail, outcomes = run_one(data, thorough)
+        if fam == "e5":
+            kind, detail, outcomes = isolated(data, thorough)
+        else:
+            kind, detail, outcomes = run_one(data, thorough)
         for v in outcomes.values():
             hist[v] = hist.get(v, 0) + 1
         if any(v != "ok" for v in outcomes.values()) or not outcomes:
@@ -353,7 +459,8 @@ def shard(job) -> dict:
         if kind in ("hang", "slow"):
             slow_cases += 1
         if kind:
-            acc.violation({"fail": kind, "family": label.split(":")[0]},
+            acc.violation({"fail": kind, "family": label.split(":")[0],
+                           "label": label.split(":", 1)[1] if ":" in label else ""},
                           f"{label}: {detail} on input {data[:48].hex()}{'...' if len(data) > 48 else ''}"
                           f" ({len(data)} bytes)",
                           {"family": label, "data": data.hex() if len(data) <= 4096 else None,
@@ -388,6 +495,7 @@ def run(ctx) -> None:
             jobs.append(("e2", (name, seed, values, lo, lo + step)))
     for i in range(8):
         jobs.append(("e3", (i, 8)))
+    jobs.append(("e5", ()))
     for kind, k in SCALING:
         jobs.append(("e4", (kind, k)))
     jobs = [(fam, args, thorough, os.path.join(tmp, f"p{i}")) for i, (fam, args) in enumerate(jobs)]
@@ -470,7 +578,9 @@ def run(ctx) -> None:
             f"{4 if ctx.quick else 5} over a 17-byte structural alphabet; E2: for "
             f"{len(seeds())} seed streams every single-byte substitution "
             f"({'structural values' if ctx.quick else 'all 256 values'}), deletion, structural "
-            "insertion, truncation, truncation+new header; E3: hostile catalogue (declared lengths "
+            "insertion, truncation, truncation+new header; E5: typed literals whose value is "
+            "astronomically larger than their text (exponents, years), each in a process of its "
+            "own; E3: hostile catalogue (declared lengths "
             "2^31-1/2^33/2^62, tables 4097/2^32-1, entry ids up to 2^32-1, nesting depth 1..1000, "
             "10^5..3*10^6 continuation bytes, up to 4*10^5 empty frames, options rows everywhere, 2000 "
             "frames, long almost-well-formed strings in every string field); E4: scaling probes "
